@@ -4,6 +4,7 @@
 package fx
 
 import (
+	"sync/atomic"
 	"encoding/json"
 	"context"
 	"errors"
@@ -346,3 +347,32 @@ type kc struct{ keys storage }
 
 func (c *kc) DelOk(k string) bool  { return c.keys != nil }
 func (c *kc) DelBad(k string) bool { return c.keys.Delete(k) }
+
+// ---- acquire / release pairing ----
+
+type limiter struct{ slots chan struct{} }
+
+func (l *limiter) acquireSlot() { l.slots <- struct{}{} }
+func (l *limiter) releaseSlot() { <-l.slots }
+
+func PairOk(l *limiter, work func() error) error {
+	l.acquireSlot()
+	defer l.releaseSlot()
+	return work()
+}
+
+func PairBad(l *limiter, work func() error) error {
+	l.acquireSlot()
+	if err := work(); err != nil {
+		return err
+	}
+	l.releaseSlot()
+	return nil
+}
+
+// ---- atomic.Value with an interface-typed operand ----
+
+var lastErr atomic.Value
+
+func AtomicOk(n int)      { lastErr.Store(n) }
+func AtomicBad(err error) { lastErr.Store(err) }
